@@ -237,6 +237,10 @@ func makeScenario(rng *rand.Rand, idx int, thorough bool) *scenario {
 				"dot.%02d.", "UPPER%02d.DAT", "sub/deep/er/f%02d.bin", "%%41-%02d.txt", "semi;colon&%02d", "back\\sub\\f%02d", "a'b\"c%02d"}
 			name = fmt.Sprintf(odd[rng.Intn(len(odd))], i)
 		}
+		if i > 0 && (i+idx)%6 == 5 {
+			// a protected file whose name is another protected file's name plus a temporary-file / backup suffix
+			name = sc.names[i-1] + []string{".tmp", "~", ".bak", ".new", ".part"}[rng.Intn(5)]
+		}
 		n := pickSize(rng, sc.s, big)
 		if sc.s >= 65536 {
 			n = []int{1, sc.s - 1, sc.s, sc.s + 1, 2*sc.s + 5, 70000}[rng.Intn(6)]
@@ -377,8 +381,8 @@ func runScenario(c *common, lg *tracelog.Log, rng *rand.Rand, idx int, sc *scena
 	a.Others["other/deep/file.bin"] = []byte{9, 9, 9}
 	a.Others[bname+".stray.par2"] = []byte{} // matches <base>.*.par2 but holds no packet of the set
 	for i, n := range sc.names {             // siblings with derived names (temporary-file / backup conventions): Repair must leave them alone
-		if i < 4 {
-			a.Others[n+[]string{".tmp", "~", ".bak", ".new"}[i]] = []byte("sibling of " + n)
+		if sib := n + []string{".tmp", "~", ".bak", ".new"}[i%4]; i < 4 && !hasKey(sc.prot, sib) {
+			a.Others[sib] = []byte("sibling of " + n)
 		}
 	}
 	{
